@@ -63,15 +63,20 @@ package host
 //@   loop 1 invariant len(keys) == len(hostMap)
 //@   loop 1 invariant (cap(hosts) == 0 || fresh(hosts)) && len(hosts) == rangeindex + 1 && hostMap == tierof(set) && forall i int :: 0 <= i && i < len(hosts) ==> hosts[i] != nil && has(hostMap, keys[i]) && hosts[i] == hostMap[keys[i]]
 
+//@ func (*Host).markRemoved
+//@   prop C15 C06
+//@   requires h != nil
+//@   modifies closed(h.removeCh)
+
 //@ func (*Set).remove
 //@   prop C15 C06
 //@   requires set != nil && set.all != nil && set.healthyMain != nil && set.healthyBackup != nil && forall k int :: 0 <= k && k < len(hosts) ==> hosts[k] != nil
 //@   requires @tier-values-non-nil (forall a string :: has(set.healthyMain, a) ==> set.healthyMain[a] != nil) && (forall a string :: has(set.healthyBackup, a) ==> set.healthyBackup[a] != nil)
-//@   modifies all
+//@   modifies mapof(set.all), mapof(set.healthyMain), mapof(set.healthyBackup), aval, heap("#closed")
 //@   ensures @removed-hosts-leave-the-member-map forall k int :: 0 <= k && k < len(hosts) ==> !has(set.all, hosts[k].Addr)
 //@   ensures @removed-hosts-leave-the-usable-set forall k int :: 0 <= k && k < len(hosts) ==> (hosts[k].Type == 0 ==> !has(set.healthyMain, hosts[k].Addr)) && (hosts[k].Type == 1 ==> !has(set.healthyBackup, hosts[k].Addr))
 //@   loop 0 invariant set.all == old(set.all) && set.healthyMain == old(set.healthyMain) && set.healthyBackup == old(set.healthyBackup) && hostsunchanged(hosts) && forall k int :: 0 <= k && k <= rangeindex ==> !has(set.all, hosts[k].Addr)
-//@   loop 0 assume hostsunchanged(hosts) && set.all == old(set.all) && set.healthyMain == old(set.healthyMain) && set.healthyBackup == old(set.healthyBackup) && set.all != nil && set.healthyMain != nil && set.healthyBackup != nil && (forall a string :: has(set.healthyMain, a) ==> set.healthyMain[a] != nil) && (forall a string :: has(set.healthyBackup, a) ==> set.healthyBackup[a] != nil)
+//@   loop 0 invariant set.all != nil && set.healthyMain != nil && set.healthyBackup != nil && (forall a string :: has(set.healthyMain, a) ==> set.healthyMain[a] != nil) && (forall a string :: has(set.healthyBackup, a) ==> set.healthyBackup[a] != nil)
 
 // ---- host statistics (C06 C15 C20): atomics through the ghost map atomu64 ------------------------------
 
